@@ -334,7 +334,7 @@ func (c *Ctx) ruleU2(rule string) {
 			}
 			switch t := in.(type) {
 			case *ssa.Store:
-				if c.Prop != "C19" && c.Prop != "C15" {
+				if c.Prop != "C19" && c.Prop != "C15" && c.Prop != "C06" {
 					// scratch memory on a node need not change what a version means; it is a conflicting access
 					// (C19) and a value of one execution visible to another (C15)
 					break
@@ -347,7 +347,7 @@ func (c *Ctx) ruleU2(rule string) {
 					}
 				}
 			case *ssa.MapUpdate:
-				if c.Prop != "C19" && c.Prop != "C15" {
+				if c.Prop != "C19" && c.Prop != "C15" && c.Prop != "C06" {
 					break
 				}
 				if nf := nodeField(t.Map); nf != "" {
